@@ -29,6 +29,9 @@ pub enum InnerFault {
     InnerLinkBadSignature(u8),
     InnerRuleFails,
     InnerLayoutTampered(TreeEdit),
+    /// the sub-layout is co-signed: another functionary's signature comes first, K's second; the inner links lie in
+    /// the directory named after the co-signer instead of K
+    CosignerFirstLinksInCosignerDir(u8),
 }
 
 #[derive(Clone, Debug, Serialize, Deserialize)]
@@ -115,6 +118,11 @@ fn apply_inner_fault(parent: &mut World, li: usize, fault: &InnerFault, deeper: 
         InnerFault::WrongSigner(n) => world.sigs = vec![SigEntry::good(&pick(*n))],
         InnerFault::Unsigned => world.sigs.clear(),
         InnerFault::ExtraSigner(n) => world.sigs.push(SigEntry::good(&pick(*n))),
+        InnerFault::CosignerFirstLinksInCosignerDir(n) => {
+            let c = pick(*n);
+            world.sigs.insert(0, SigEntry::good(&c));
+            *placement = Placement::OtherKeyDir(c);
+        }
         InnerFault::Expired => world.layout.expires = now - 1 - (li as i64) * 86_400,
         InnerFault::MisplacedInParent => *placement = Placement::ParentDir,
         InnerFault::MisplacedOtherKeyDir(n) => *placement = Placement::OtherKeyDir(pick(*n)),
@@ -191,6 +199,7 @@ fn fault_strategy() -> BoxedStrategy<InnerFault> {
         1 => any::<u8>().prop_map(InnerFault::InnerLinkBadSignature),
         2 => Just(InnerFault::InnerRuleFails),
         1 => tree_edit().prop_map(InnerFault::InnerLayoutTampered),
+        2 => any::<u8>().prop_map(InnerFault::CosignerFirstLinksInCosignerDir),
     ]
     .boxed()
 }
@@ -205,7 +214,7 @@ impl Property for C15 {
          signed by K; inner layouts have 0-2 steps with their own functionaries and links in <step>.<keyid8>/; one fault is injected into one \
          delegated step: inner layout signed by another functionary / by nobody / by K plus others; inner expiry one second (or whole days) before the verification instant, which is the wall clock or an instant between 2008 and 2093 injected through the clock hook and different from case to case; inner links \
          placed in the parent directory, under another key's directory or (step names with dots) under the name with its last extension stripped; an inner link removed, tampered, replaced by an unauthorised \
-         signer's, or with a broken signature; an inner rule that fails; the inner layout edited after signing; optionally the parent's next \
+         signer's, or with a broken signature; an inner rule that fails; the inner layout edited after signing; the inner layout co-signed by another functionary (whose signature comes first) with the inner links in the co-signer's directory; optionally the parent's next \
          step is tied to the delegated step's summary with MATCH ... FROM rules, and a step name is requested. History on disk: the fault-free tree is written and verified once in the same directory first, then the faulted tree replaces it at the same paths with one fixed modification time. Oracle: parent Ok only if the \
          ground-truth model finds no violated condition (the delegated step counts only when the inner world, judged with key set {K} and \
          directory <step>.<K8>, has none); on Ok the returned summary equals {requested name, materials of the first step, products, \
@@ -357,7 +366,10 @@ impl Property for C15 {
                     if let (Some(want), in_toto::models::MetadataWrapper::Link(l)) = (&j.summary, &b.metadata) {
                         if !w.layout.steps.is_empty() {
                             let got = evidence_of_link(l);
-                            let want_name = spec.step_name.clone().unwrap_or_default();
+                            let want_name = serde_json::from_str::<in_toto::models::Metablock>(&info.layout_text)
+                                .ok()
+                                .and_then(|blk| effective_step_name(&blk, spec.step_name.as_deref()).map(|x| x.to_string()))
+                                .unwrap_or_default();
                             if l.name != want_name {
                                 o.fail("C15/summary/name", format!("summary name {:?}", l.name), format!("{:?}", want_name));
                             }
